@@ -385,9 +385,9 @@ def _c14_fs_bs(v):
 
 @classifier('c12_relative_dunder_future_import')
 def _c12_rel_future(v):
-    """F-C12-20: `from .__future__ import x` (a relative import of a module that happens to be called __future__) is
-    treated as a __future__ import (the source has a comment about exactly this)"""
+    """F-C12-20: grammar >= 3.13: `from .__future__ import x` (relative import of a module called __future__) is no longer a
+    __future__ import for CPython 3.13+, parso still treats it as one (correct up to 3.12)"""
     d, msg, mech, ver = _c12(v)
     import re
-    return (msg.startswith('future feature ') or msg.startswith('from __future__ imports must occur') or msg in ('not a chance',)) \
+    return ver >= (3, 13) and (msg.startswith('future feature ') or msg.startswith('from __future__ imports must occur') or msg in ('not a chance',)) \
         and bool(re.search(r'\bfrom\s*\.+\s*__future__\b', d.get('line_text') or ''))
